@@ -50,6 +50,8 @@ class TokJson:
             return {k: self.norm(v) for k, v in d.items()}
         if isinstance(d, (bytes, bytearray)):
             raise TypeError('Object of type bytes is not JSON serializable')
+        if isinstance(d, (set, frozenset)):
+            raise TypeError('Object of type %s is not JSON serializable' % type(d).__name__)
         return d
 
     def dumps(self, data, separators=None, **kw):
